@@ -1,4 +1,5 @@
-(* C11, priority loop: what propagate_priority does for a RUNNABLE PriorityTask holder -
+(* C11, priority loop: what propagate_priority does for a RUNNABLE PriorityTask holder that is not
+   itself queued on a PriorityLock -
    it asks the loop to re-key the holder's ready-queue entry with its current effective
    priority (PrioritySchedulingMixin.task_reschedule -> PosPriorityQueue.reschedule), and
    nothing else; no effective priority changes.  (The analysis of pos_reschedule itself -
@@ -12,13 +13,20 @@ From Asynkit Require Import Base.Prelude Queue.PQ Queue.PosPQ Queue.Exec Sched.M
 Import RecordSetNotations.
 Open Scope nat_scope.
 
+(* F17 repair: a runnable task that is still queued on a PriorityLock (a cancelled / interrupted /
+   woken waiter that has not run its finally yet) ALSO forwards the notification, so "only the
+   ready queue changes" needs the hypothesis that the runnable holder is not queued on a lock. *)
 Lemma propagate_runnable fuel s h :
-  is_prio_task s h = true -> task_is_runnable s h = true ->
+  is_prio_task s h = true -> task_is_runnable s h = true -> twaiting (gett s h) = None ->
   propagate_task fuel s h = task_reschedule s h.
-Proof. intros Hp Hr. destruct fuel; simpl; rewrite Hp, Hr; reflexivity. Qed.
+Proof.
+  intros Hp Hr Hw.
+  assert (Hw' : twaiting (gett (task_reschedule s h) h) = None) by exact Hw.
+  destruct fuel; simpl; rewrite Hp, Hr; cbn [negb]; rewrite Hw'; reflexivity.
+Qed.
 
 Theorem immediate_reschedule s h :
-  is_prio_task s h = true -> task_is_runnable s h = true ->
+  is_prio_task s h = true -> task_is_runnable s h = true -> twaiting (gett s h) = None ->
   let s' := propagate_priority s h in
   s' = s <| ready := rq_reschedule (ready s) (task_key s h) (effective_priority s h) |> /\
   (forall u, effective_priority s' u = effective_priority s u) /\
@@ -27,7 +35,7 @@ Theorem immediate_reschedule s h :
                                      (effective_priority s h) with
                 | None => RPos q | Some (_, q') => RPos q' end).
 Proof.
-  intros Hp Hr s'. unfold s', propagate_priority. rewrite propagate_runnable by auto.
+  intros Hp Hr Hw s'. unfold s', propagate_priority. rewrite propagate_runnable by auto.
   unfold task_reschedule. split; [reflexivity|]. split.
   - intros u. unfold effective_priority. apply eprio_ext; [intros; split; reflexivity|intros; reflexivity].
   - intros q Eq. cbn. rewrite Eq. cbn. destruct (pos_reschedule HPV q _ _) as [[o q']|]; reflexivity.
